@@ -685,4 +685,223 @@ def c13(report, rng, tier, findings):
         "constructor parameter order is read with inspect.signature (trusted)"]
 
 
-HANDLERS = {'C13': c13, 'C10': c10, 'C16': c16, 'C17': c17, 'C09': c09, 'C03': c03, 'C06': c06, 'C15': c15, 'C18': c18, 'C19': c19}
+# ------------------------------------------------------------------------------------------- C04
+
+def c04_impl(job):
+    """A pool of queries over shared variables; a history of full / partial / raising evaluations; every
+    evaluation that runs to completion must return what a fresh evaluation of that query returns."""
+    case, opts = job
+    from . import impl
+    from entity_query_language import an, the, entity, set_of, symbolic_mode
+    from entity_query_language.cache_data import enable_caching, disable_caching
+    out = {'id': case['id'], 'runs': {}}
+    specs = []
+    try:
+        for qd in case['pool']:
+            qc = {**case, 'sel': qd['sel'], 'cond': qd['cond'], 'quant': 'an'}
+            specs.append([surface.render_row(r) for r in surface.Oracle(qc).rows()])
+        out['specs'] = specs
+    except Exception as e:
+        out['spec_exc'] = str(e)
+        return out
+    for caching in opts.get('caching', (False, True)):
+        impl.reset_library_state()
+        (enable_caching if caching else disable_caching)()
+        key = 'on' if caching else 'off'
+        steps = []
+        try:
+            b = impl.Built(case)
+            # snapshot of the user's data
+            raws = {vid: [b.decode(v) for v in raw] for vid, _, raw in case['vars']}
+            snap_objs = [dict(vars(o)) for o in b.objs]
+            with symbolic_mode():
+                for vid, cls, raw in case['vars']:
+                    from entity_query_language import let
+                    b.vars[vid] = let(b.classes[cls], raws[vid], name=f"v{vid}")
+                queries = []
+                for qd in case['pool']:
+                    sel = [b.term(t) for t in qd['sel']]
+                    conds = [b.cond(c) for c in qd['cond']]
+                    desc = entity(sel[0], *conds) if len(sel) == 1 else set_of(sel, *conds)
+                    queries.append((an(desc), sel))
+
+            def row(sel, r):
+                return surface.render_row((b.encode(r),) if len(sel) == 1 else tuple(b.encode(r[s_]) for s_ in sel))
+            for op in case['hist']:
+                qi = op[1]
+                q, sel = queries[qi]
+                b.counter.raise_at = None
+                if op[0] == 'full':
+                    steps.append(('full', qi, [row(sel, r) for r in q.evaluate()]))
+                elif op[0] == 'take':
+                    it = q.evaluate()
+                    got = []
+                    try:
+                        for _ in range(op[2]):
+                            got.append(row(sel, next(it)))
+                    except StopIteration:
+                        pass
+                    it.close()
+                    steps.append(('take', qi, got))
+                elif op[0] == 'raise':
+                    b.counter.raise_at = b.counter.calls + op[2]
+                    try:
+                        rows_ = [row(sel, r) for r in q.evaluate()]
+                        steps.append(('noraise', qi, rows_))     # fewer than j predicate calls: ran to completion
+                    except impl.UserRaise:
+                        steps.append(('raised', qi, None))
+                    finally:
+                        b.counter.raise_at = None
+            unchanged = all([id(x) for x in raws[vid]] == [id(b.decode(v)) for v in raw] for vid, _, raw in case['vars']) \
+                and snap_objs == [dict(vars(o)) for o in b.objs]
+            out['runs'][key] = {'steps': steps, 'data_unchanged': unchanged}
+        except Exception as e:
+            out['runs'][key] = {'exc': f'{type(e).__name__}: {str(e)[:200]}', 'steps': steps}
+        finally:
+            enable_caching()
+            impl.reset_library_state()
+    return out
+
+
+def c04(report, rng, tier, findings):
+    n = n_cases(tier, 200, 3000)
+    cases = []
+    for i in range(n):
+        nv = rng.choice((1, 1, 2, 2))
+        cfg = gen.Cfg(n_vars=(nv, nv), n_objs=(2, 5 if nv == 1 else 3), depth=2, empty_domain=0.0,
+                      dup_domain=0.35, select_all=1.0)
+        base = gen.gen_case(rng, cfg, f'h{i}')
+        ids = [v[0] for v in base['vars']]
+        pool = []
+        for _ in range(rng.randint(1, 3)):
+            g = gen.CondGen(rng, cfg, ids)
+            cond = [g.cond(rng.randint(0, 2))]
+            if rng.random() < 0.7:          # a user predicate, so that a raising evaluation is possible
+                cond.append((rng.choice(('pred', 'predc')), 'is_big', ('var', rng.choice(ids))))
+            k = rng.randint(1, len(ids))
+            sel = [('var', v) for v in rng.sample(ids, k)]
+            pool.append({'sel': sel, 'cond': cond})
+        hist = []
+        for _ in range(rng.randint(2, 6 if tier == 'quick' else 10)):
+            qi = rng.randrange(len(pool))
+            r = rng.random()
+            if r < 0.35:
+                hist.append(('full', qi))
+            elif r < 0.7:
+                hist.append(('take', qi, rng.randint(0, 3)))
+            else:
+                hist.append(('raise', qi, rng.randint(1, 4)))
+        hist.append(('full', rng.randrange(len(pool))))
+        case = {**base, 'pool': pool, 'hist': hist}
+        cases.append(case)
+    results = pmap(c04_impl, [(c, {'caching': (False, True)}) for c in cases])
+    fnd = {f['id']: f for f in findings.get('findings', []) if f.get('status', 'open') == 'open'}
+    report.rule = ("a pool of 1-3 queries over 1-2 SHARED variables (35% of the domains list an object twice), and a history "
+                   "of 2-6 (thorough 10) operations - evaluate fully, take k results then close, evaluate while a user predicate "
+                   "raises at its j-th call - ending with a full evaluation; EVERY evaluation that runs to completion is compared "
+                   "with the fresh answer of that query (oracle), partial ones must be a prefix-consistent subset; the user's "
+                   "domain lists and object attributes are snapshotted before and compared after; caching on and off; non-trivial = "
+                   "an abandoned or raising evaluation is followed by a full one of a query with a non-constant answer")
+    for case, res in zip(cases, results):
+        if 'spec_exc' in res:
+            report.count('skipped_oracle_raises')
+            continue
+        report.evaluations += 1
+        for op in case['hist']:
+            report.count('op_' + op[0])
+        report.add_sample({'pool': case['pool'], 'history': case['hist'],
+                           'domains': [(v[0], len(v[2])) for v in case['vars']]}, limit=3)
+        kinds = [op[0] for op in case['hist']]
+        if any(k in ('take', 'raise') for k in kinds[:-1]) and any(0 < len(s_) for s_ in res['specs']):
+            report.nontrivial.add(str((case['pool'], case['hist'], case['vars'], [o[2] for o in case['objs']])))
+        for key, run in res['runs'].items():
+            if 'exc' in run:
+                report.violations.append((f'implementation raised {run["exc"]} ({key})',
+                                          {'what': run['exc'], 'case': case, 'config': key}))
+                continue
+            if not run['data_unchanged']:
+                report.violations.append(('evaluation modified the user\'s domain collections or objects',
+                                          {'what': 'user data modified', 'case': case, 'config': key}))
+                continue
+            for si, (kind, qi, rows_) in enumerate(run['steps']):
+                report.traces += 1
+                spec = res['specs'][qi]
+                allsel = len(case['pool'][qi]['sel']) == len(case['vars'])
+                canon_ = (lambda x: sorted(x)) if allsel else (lambda x: sorted(set(x)))
+                bad = None
+                if kind in ('full', 'noraise') and canon_(rows_) != canon_(spec):
+                    bad = f'step {si + 1} ({case["hist"][si]}): a full evaluation returned {canon_(rows_)}, fresh answer {canon_(spec)}'
+                elif kind == 'take' and not set(rows_) <= set(spec):
+                    bad = f'step {si + 1} ({case["hist"][si]}): a partial evaluation returned rows outside the fresh answer'
+                if bad:
+                    if key == 'on' and 'C05-F1' in fnd and len(case['vars']) > 1 and \
+                            'off' in res['runs'] and 'exc' not in res['runs']['off'] and \
+                            all(k not in ('full', 'noraise') or
+                                canon_(r) == canon_(res['specs'][q_]) for k, q_, r in res['runs']['off']['steps']):
+                        report.known['C05-F1'] = report.known.get('C05-F1', 0) + 1
+                        report.known_text['C05-F1'] = fnd['C05-F1']['what']
+                    else:
+                        report.violations.append((bad, {'what': bad, 'case': case, 'config': 'caching ' + key,
+                                                        'steps': run['steps'], 'fresh_answers': res['specs']}))
+                    break
+    return ['EqlModel.Props.C04', 'EqlModel.Props.C07'], [
+        "single thread; two simultaneously suspended iterators of one query are outside the property's operation list",
+        "caching on, multi-variable queries: subject to known finding C05-F1 (attributed only when the same history is right "
+        "with caching off)",
+        "the per-node state (de-dup sets, caches) is modelled by its life-cycle only; that a clean state gives the fresh answer "
+        "is the L1 semantics, tied to the code by this correspondence"]
+
+
+# ------------------------------------------------------------------------------------------- C05
+
+def c05(report, rng, tier, findings):
+    """Caching on vs off vs oracle over every query shape: joins over 2-4 variables, disjunctions over equal and over
+    different variable sets, negation, for_all, nested queries, flatten, rule trees."""
+    from . import props_q, props_r
+    n = n_cases(tier, 240, 3000)
+    # stream 1: multi-variable joins (up to 4 variables: where the caches stop being prefix-uniform)
+    cases = []
+    for i in range(n):
+        nv = rng.choice((1, 2, 3, 3, 4))
+        cfg = gen.Cfg(n_vars=(nv, nv), n_objs=(2, 4 if nv <= 2 else 3), depth=2 if nv >= 3 else 3,
+                      select_terms=0.1, subqueries=0.2, empty_domain=0.0, preds=nv < 4)
+        case = gen.gen_case(rng, cfg, f'j{i}')
+        if rng.random() < 0.5:
+            order = [v[0] for v in case['vars']]
+            rng.shuffle(order)
+            case['decl_order'] = order          # declaration order decides the cache key order
+        cases.append(case)
+    judge = QueryJudge(report, findings, 'C05', nontrivial=lambda c, r: True)
+    run_query_cases(report, cases, {'caching': (False, True), 'evals': 2}, judge)
+    hits_joins = report.dist.get('cache_hits_on', 0)
+    # the other shapes reuse the streams of their own properties (smaller), same judge logic
+    sub = lambda k: (k // 4 if tier == 'quick' else k // 4)     # noqa: E731
+    for handler in (c10, c15, c16, props_r.c12):
+        saved = n_cases
+        try:
+            globals()['n_cases'] = lambda t, q, th: max(40, sub(q if t == 'quick' else th))
+            props_r.n_cases = globals()['n_cases']
+            handler(report, rng, tier, findings)
+        finally:
+            globals()['n_cases'] = saved
+            props_r.n_cases = saved
+    report.nontrivial = {x for x in report.nontrivial}
+    report.extra['cache_hits_taken_with_caching_on'] = report.dist.get('cache_hits_on', 0)
+    report.extra['cache_hits_taken_with_caching_off'] = report.dist.get('cache_hits_off', 0)
+    report.rule = ("every case is evaluated twice with the result caches enabled and twice with them disabled, and all four answers "
+                   "are compared with the oracle: joins over 1-4 variables with shuffled declaration order (cache key order), "
+                   "disjunctions over equal and over different variable sets, negation, sub-queries, then the streams of C10 "
+                   "(for_all), C15 (nested queries), C16 (flatten) and C12 (rule trees); the number of cache hits actually taken is "
+                   "reported (non-vacuity); a difference is attributed to a known finding only inside its scope and only when the "
+                   "cache-off answer is the specified one; non-trivial = every case in which at least one cache hit was taken is "
+                   "counted through the per-stream rules")
+    if report.extra['cache_hits_taken_with_caching_on'] == 0:
+        report.notes.append('no cache hit was taken: the comparison is vacuous')
+    return ['EqlModel.Props.C05', 'EqlModel.Props.C20'], [
+        "proved: the cache index (C20) and prefix-uniformity of single-key caches; the evaluator's use of the index is decided "
+        "by this differential check only (no cache-aware evaluator model yet)",
+        "known findings C05-F1 (non-prefix-uniform tries), C05-F2 (flatten conditions), C05-F3 (and_ with for_all over the "
+        "universal variable only), C05-F4 (re-evaluated rule trees with alternatives)"]
+
+
+HANDLERS = {'C05': c05, 'C04': c04, 'C13': c13, 'C10': c10, 'C16': c16, 'C17': c17, 'C09': c09, 'C03': c03, 'C06': c06, 'C15': c15, 'C18': c18, 'C19': c19}
